@@ -360,6 +360,9 @@ func srcName(v ssa.Value) string {
 			if f, ok := x.X.(*ssa.FreeVar); ok {
 				return f.Name()
 			}
+			if g, ok := x.X.(*ssa.Global); ok {
+				return g.Name()
+			}
 		}
 	case *ssa.Const:
 		if x.Value != nil {
